@@ -541,6 +541,9 @@ class Report:
         return True
 
     def broken_obligation(self, what, detail, found_input=False):
+        # at most three witnesses per obligation / correspondence stream
+        if sum(1 for c, _, _ in self.violations if c == "obligation/" + what) >= 3:
+            return
         self.violations.append(("obligation/" + what, detail, {"kind": "proof-or-correspondence", "what": what,
                                                                "detail": detail, "no_failing_input_found": not found_input}))
 
